@@ -496,6 +496,23 @@ func constValue(v reflect.Value) constant.Value {
 	return nil
 }
 
+// setConstFloat sets the floating-point or complex v to the exact constant c rounded to the type of v.
+func setConstFloat(v reflect.Value, c constant.Value) {
+	round := func(c constant.Value) float64 {
+		if k := v.Kind(); k == reflect.Float32 || k == reflect.Complex64 {
+			f, _ := constant.Float32Val(c)
+			return float64(f)
+		}
+		f, _ := constant.Float64Val(c)
+		return f
+	}
+	if isComplex(v.Type()) {
+		v.SetComplex(complex(round(constant.Real(c)), round(constant.Imag(c))))
+		return
+	}
+	v.SetFloat(round(c))
+}
+
 func genValueInt(n *node) func(*frame) (reflect.Value, int64) {
 	value := genValue(n)
 
